@@ -7,7 +7,7 @@ From Coq Require Import List ZArith NArith String Bool.
 From SCC Require Import Base.Sexp Lang.FunSyn Lang.CoreSyn Lang.AxSyn Lang.AxSize Lang.FsSize Lang.CoreSize
      Model.Fun2Core Model.Focus Model.Shrink Model.SizeDefs Model.Linearize Model.Backend
      Model.Uniquify Proof.Fun2CoreProof Proof.SizeLin Proof.SizeCodegen Proof.SizeShrink Proof.SizeFocus Proof.SizeGen Proof.SizeUniquify Model.SizeFun Proof.SizeFun2CoreFv Proof.SizeFun2Core Proof.SizeFun2CoreProg
-     Model.ParMoves Model.LinCheck Model.X86 Model.SizeWf Proof.SizeParMoves Proof.SizeExchange Proof.SizeCodegenWf Proof.SizeX86.
+     Model.ParMoves Model.LinCheck Model.X86 Model.SizeWf Proof.SizeParMoves Proof.SizeExchange Proof.SizeCodegenWf Proof.SizeX86 Proof.SizePipeline Proof.Fun2CoreExamples.
 Import ListNotations.
 Open Scope N_scope.
 
@@ -291,3 +291,39 @@ Theorem C19_x86_compile_size : forall p lc r n lc',
   len r <= 30 + x86_K * cg_bound_defs (pdefs p).
 Proof. exact x86_compile_size. Qed.
 Print Assumptions C19_x86_compile_size.
+
+(* ---------- round 2: the composition ---------- *)
+(* AxCut after linearization, from the source alone (no hypothesis but that the stages succeed):
+     pipeline_ax_bound p = b_linearized (b_shrunk (b_focused W V) X A),
+     W = f_wprog p (weighted source size), V = fun_occ p, X = fun_X p, A = fun_A p (type declarations),
+     b_focused W V = 4 W (12 + 3 V),  b_shrunk w X A = w ((2 + X (2 + A)) + 2 (1 + X) w),
+     b_linearized S = S (5 + 3 S)      (Model/SizeFun.v) *)
+Theorem C19_pipeline_ax_size : forall p c q s,
+  compile_prog p = Fun2Core.Ok c -> focus_prog c = Backend.Ok q -> shrink_prog q = SOk s ->
+  ax_size_prog (linearize s) <= pipeline_ax_bound p /\
+  pipeline_ax_bound p <= 8 * (4 + fun_X p * (4 + fun_A p)) ^ 2 * (12 * (f_wprog p * (4 + fun_occ p))) ^ 4.
+Proof. intros p c q s H1 H2 H3. split; [exact (pipeline_ax_size p c q s H1 H2 H3) | exact (pipeline_ax_closed p)]. Qed.
+Print Assumptions C19_pipeline_ax_size.
+
+(* instructions of the x86-64 routine (preamble, setup, code, cleanup):
+     <= 30 + x86_K * L * (5 + 2 L),  L = pipeline_ax_bound p
+   i.e. degree 8 in W (4 + V) and degree 4 in the declaration coefficient: every stage after focusing
+   contributes a factor 2 to the degree because its proved bound is size x (1 + width) and width <= size is
+   the only width estimate that needs no scoping invariant.  Guard: the Substitutes of the linearized program
+   have distinct ids (sub_wf; implied by lin_check_prog, which C05_linearize_exact gives for prog_ok inputs). *)
+Theorem C19_pipeline_size : forall p c q s lc r n lc',
+  compile_prog p = Fun2Core.Ok c -> focus_prog c = Backend.Ok q -> shrink_prog q = SOk s ->
+  sub_wf_prog (linearize s) = true ->
+  x86_compile (linearize s) lc = Backend.Ok (r, n, lc') ->
+  len r <= 30 + x86_K * (pipeline_ax_bound p * (5 + 2 * pipeline_ax_bound p)).
+Proof. exact pipeline_x86_size. Qed.
+Print Assumptions C19_pipeline_size.
+
+(* the hypotheses are satisfiable and the stage bounds are of a sensible size on a small program with two
+   shared continuations (Proof/Fun2CoreExamples.v ex_shared: 33 nodes): 259 instructions; the per-stage
+   bound of the code generator gives 17410, the end-to-end composition is astronomically loose *)
+Example C19_pipeline_example :
+  pipeline_run ex_shared =
+    Some (33, 36, 5, 1, 1, (73, 84, 85, 63, 93), (660, 972), (220, 259, true, true, true),
+          (10975529531126448, 19033035261203346436745631680226222, 17410)).
+Proof. vm_compute. reflexivity. Qed.
